@@ -1077,7 +1077,19 @@ def _floor(ctx: Ctx, c: Collector) -> None:
             el = v[1][0]
             kv = el[3][0][1][1][0]
             keep = T.guard_term(el[2][0])
-            if keep[0] == "cmp" and keep[1] == "<" and keep[3] == kv and keep[2][0] == "agg":
+            if keep[0] == "or":
+                # several reasons to keep an entry: one of them must be the floor bound (keeping more is harmless)
+                floorish = [d for d in keep[1] if d[0] == "cmp" and d[1] == "<=" and d[3] == kv and d[2][0] == "agg" and d[2][1] == "max"
+                            and len(d[2][2][1]) == 1 and d[2][2][1][0][2]]
+                if floorish:
+                    keep = floorish[0]
+                else:
+                    pr.append("entries are kept when " + " or ".join(T.show(d)[:50] for d in keep[1]) + ": none of these is the floor entry of the threshold (the newest entry at or "
+                              "before it) -- once a newer entry exists, the entry that get_output_for() still returns for a consumer inside the gap is pruned and replaced by None")
+                    keep = None
+            if keep is None:
+                pass
+            elif keep[0] == "cmp" and keep[1] == "<" and keep[3] == kv and keep[2][0] == "agg":
                 pr.append("entries with key == floor bound are dropped (> instead of >=): the floor entry itself is pruned")
             elif not (keep[0] == "cmp" and keep[1] == "<=" and keep[3] == kv):
                 unk = f"keep-predicate {T.show(keep)[:80]} not recognised"
